@@ -2,70 +2,73 @@
 import json, os
 import verif
 
-FILL = 1000000
-
-
 def classify(r):
     """Words the first difference of a record TLC rejected (python mirror of Fn_IndexMap, for key/detail only)."""
     if r.get("panic"):
         return "indexmap/%s/panic" % r["mode"], "table operation panicked: %s" % r["panic"]
-    tags = {k: set() for k in r["keys"]}
+    ins = {k: [] for k in r["keys"]}
     c = 0
     prev = None
+    cur = None
     for i, st in enumerate(r["steps"]):
         if st["op"] == "add":
-            tags[st["k"]].add(st["t"])
-        elif st["op"] == "addmany":
-            tags[st["k"]].update(st["ts"])
+            ins[st["k"]] += st["vs"]
         elif st["op"] == "burst":
             c = st["to"]
         for o in st["obs"]:
-            total = sum(len(v) for v in tags.values()) + c
-            where = "step %d (%s k=%s n=%s from=%s to=%s, %d entries)" % (i + 1, st["op"], st["k"], st["n"] or len(st.get("ts", [])), st["from"], st["to"], total)
-            exp = [(k, tags[k], o["look"][x]) for x, k in enumerate(r["keys"])]
-            exp += [("filler%d" % f, ({FILL + f} if f <= c else set()), o["fill"][y]) for y, f in enumerate(r["fsamp"])]
-            exp = [(a, b, dict(zip(("tags", "get", "has", "first"), L))) for a, b, L in exp]
-            for name, T, L in exp:
-                got = L["tags"]
+            # resolve "same as previous observation"
+            row = o["look"] + o["fill"]
+            cur = [row[x] if row[x] or prev is None else prev[x] for x in range(len(row))]
+            total = sum(len(v) for v in ins.values()) + c
+            where = "step %d (%s k=%s n=%s from=%s to=%s, %d entries)" % (i + 1, st["op"], st["k"], st["n"] or len(st.get("vs", [])), st["from"], st["to"], total)
+            exp = [(k, ins[k]) for k in r["keys"]] + [("filler%d" % f, [f] if f <= c else []) for f in r["fsamp"]]
+            exp = [(a, b, dict(zip(("codes", "get", "has", "first", "iter"), L))) for (a, b), L in zip(exp, cur)]
+            for name, E, L in exp:
                 what = None
-                if set(got) - T:
-                    what = "lookup-foreign-or-corrupt-entry"
-                elif T - set(got):
-                    what = "lookup-misses-entry"
-                elif len(got) != len(T):
-                    what = "lookup-repeats-entry"
-                elif (not T and L["get"] != -2) or (T and L["get"] not in T):
-                    what = "single-lookup"
-                elif L["has"] != bool(T):
-                    what = "has"
-                elif (not T and L["first"] != -1) or (T and not (0 <= L["first"] <= total)):
-                    what = "first-position-range"
+                for col, w in (("codes", "lookup"), ("iter", "iteration")):
+                    got = L[col]
+                    if sorted(got) == sorted(E):
+                        continue
+                    if set(got) - set(E):
+                        what = w + "-foreign-or-corrupt-entry"
+                    elif len(got) < len(E):
+                        what = w + "-misses-entry"
+                    elif len(got) > len(E):
+                        what = w + "-repeats-entry"
+                    else:
+                        what = w + "-wrong-multiplicity"
+                    break
+                if not what:
+                    if (not E and L["get"] != -2) or (E and L["get"] not in E):
+                        what = "single-lookup"
+                    elif L["has"] != bool(E):
+                        what = "has"
+                    elif (not E and L["first"] != -1) or (E and not (0 <= L["first"] <= total)):
+                        what = "first-position-range"
                 if what:
-                    return "indexmap/%s/%s" % (r["mode"], what), "%s: key %s expected tags %s, got lookup=%s get=%s has=%s first=%s" % (where, name, sorted(T)[:20], got[:20], L["get"], L["has"], L["first"])
+                    return "indexmap/%s/%s" % (r["mode"], what), "%s: key %s expected value codes %s, got lookup=%s iteration=%s get=%s has=%s first=%s" % (
+                        where, name, sorted(E)[:20], L["codes"][:20], L["iter"][:20], L["get"], L["has"], L["first"])
             firsts = [L["first"] for _, _, L in exp if L["first"] != -1]
             if len(firsts) != len(set(firsts)):
                 return "indexmap/%s/first-position-shared" % r["mode"], "%s: two keys share a first-entry position: %s" % (where, firsts)
-            at = set().union(*tags.values()) if tags else set()
-            it, fs = o["it"], o["fs"]
-            if it[0] != len(at) or it[1] != len(at) or (at and (it[2] not in at or it[3] not in at)) or fs[0] != c or fs[1] != c or fs[2]:
-                return "indexmap/%s/iteration" % r["mode"], "%s: iteration met %d tracked entries, %d distinct, tags %d..%d (expected %d), fillers seen=%d distinct=%d (expected %d), foreign/corrupt=%d" % (
-                    where, it[0], it[1], it[2], it[3], len(at), fs[0], fs[1], c, fs[2])
+            fs = o["fs"]
+            if fs[0] != c or fs[1] != c or fs[2]:
+                return "indexmap/%s/iteration" % r["mode"], "%s: iteration met fillers seen=%d distinct=%d (expected %d), foreign/corrupt entries=%d" % (
+                    where, fs[0], fs[1], c, fs[2])
             if o["len"] != total:
                 return "indexmap/%s/len" % r["mode"], "%s: len=%d" % (where, o["len"])
             if prev is not None:
-                pl = prev["look"] + prev["fill"]
-                cl = o["look"] + o["fill"]
-                for x in range(len(pl)):
-                    if pl[x][3] != -1 and cl[x][3] != pl[x][3]:
-                        return "indexmap/%s/first-position-changed" % r["mode"], "%s: first-entry position of key #%d changed %d -> %d" % (where, x, pl[x][3], cl[x][3])
-            prev = o
+                for x in range(len(prev)):
+                    if prev[x][3] != -1 and cur[x][3] != prev[x][3]:
+                        return "indexmap/%s/first-position-changed" % r["mode"], "%s: first-entry position of key #%d changed %d -> %d" % (where, x, prev[x][3], cur[x][3])
+            prev = cur
     return "indexmap/%s/unclassified" % r["mode"], "TLC rejected the record, python mirror found no difference"
 
 
 def run(ctx):
     out = ctx.go_test("internal/repository/index", "^TestVerif_C56$", timeout=2400)
     res = ctx.go_results[-1]
-    n, bad, lines = ctx.check_records("Fn_IndexMap", os.path.join(out, "recs.ndjson"), shard=ctx.pick(31, 250), timeout=1500)
+    n, bad, lines = ctx.check_records("Fn_IndexMap", os.path.join(out, "recs.ndjson"), shard=ctx.pick(400, 1000), timeout=1500)
     seen = {}
     for i in bad:
         r = json.loads(lines[i - 1])
@@ -73,15 +76,17 @@ def run(ctx):
         if key not in seen or len(lines[i - 1]) < seen[key][0]:
             seen[key] = (len(lines[i - 1]), detail, r)
     for key, (_, detail, r) in sorted(seen.items()):
-        small = {"mode": r["mode"], "keymode": r["keymode"], "fillmode": r["fillmode"],
-                 "steps": [{k: (s[k] if k != "ts" else len(s[k])) for k in ("op", "k", "t", "ts", "from", "to", "n") if k in s} for s in r["steps"]]}
+        small = {"mode": r["mode"], "family": r["family"], "keymode": r["keymode"], "fillmode": r["fillmode"],
+                 "value_code": "((pack*1024)+offset)*8+length_variant",
+                 "steps": [{k: (s[k] if k != "vs" or len(s[k]) <= 12 else s[k][:12] + ["... %d in all" % len(s[k])])
+                            for k in ("op", "k", "vs", "from", "to", "n") if k in s} for s in r["steps"]]}
         ctx.violate(key, detail, small)
 
     def brief(s):
         last = s["steps"][-1]["obs"][-1] if s["steps"] and s["steps"][-1]["obs"] else {}
-        return {"mode": s["mode"], "keymode": s["keymode"], "fillmode": s["fillmode"],
-                "ops": ["%s %s" % (t["op"], t["k"] or (t["n"] if t["op"] == "prealloc" else "%d..%d" % (t["from"], t["to"]) if t["op"] == "burst" else "")) for t in s["steps"]][:40],
-                "final_len": last.get("len"), "final_first_positions": [l[3] for l in last.get("look", [])], "final_entries_per_key": [len(l[0]) for l in last.get("look", [])]}
+        return {"mode": s["mode"], "family": s["family"], "keymode": s["keymode"], "fillmode": s["fillmode"],
+                "ops": ["%s %s" % (t["op"], ("%s %s" % (t["k"], t["vs"][:6])) if t["op"] == "add" else (t["n"] if t["op"] == "prealloc" else "%d..%d" % (t["from"], t["to"]) if t["op"] == "burst" else "")) for t in s["steps"]][:40],
+                "final_len": last.get("len")}
     cov = {"evaluations": n, "distinct_nontrivial": res["distinct_nontrivial"], "rule": res["rule"],
            "samples": [brief(s) for s in verif.samples_from(lines, 3)],
            "records_checked_by_tlc": n, "records_rejected": len(bad), "violation_classes": sorted(seen),
